@@ -604,6 +604,43 @@ func (g *gen) doGRPC(c *Case, srv *wire.Server, cl *clients, id string, rc *rec)
 		return nil
 	}
 	var termErr error
+	if c.Duplex {
+		// full duplex: one goroutine sends while this one receives
+		sendDone := make(chan struct{})
+		go func() {
+			defer close(sendDone)
+			for i := range c.Msgs {
+				if err := st.SendMsg(unmarshalAs(c.inDesc(), c.Msgs[i])); err != nil {
+					return
+				}
+			}
+			st.CloseSend()
+		}()
+		for {
+			if err := recvOne(); err != nil {
+				termErr = err
+				break
+			}
+			if len(co.msgs) > len(c.Msgs)+len(c.Reply)+8 {
+				termErr = fmt.Errorf("verif: reply flood")
+				break
+			}
+		}
+		select {
+		case <-sendDone:
+		case <-time.After(opTimeout):
+			return realResult{incon: "gRPC duplex sender did not finish"}
+		}
+		if ctx.Err() != nil {
+			return realResult{incon: "gRPC call timed out"}
+		}
+		co.hasStatus = true
+		if termErr != io.EOF {
+			s := status.Convert(termErr)
+			co.code, co.smsg = int(s.Code()), s.Message()
+		}
+		return realResult{co: co, clientSaw: true}
+	}
 	nSend := len(c.Msgs)
 	if c.Abort == "cancel" && c.Trunc >= 0 && c.Trunc < nSend {
 		nSend = c.Trunc
